@@ -6,7 +6,7 @@ HERE = os.path.dirname(os.path.dirname(os.path.abspath(__file__)))
 CLAIMED = {
  "C20": dict(level="exploration", ref="§4 C20",
    technique="deterministic simulation: tasks run as goroutines under a baton-passing cooperative scheduler that switches only at AST-inserted yield points according to an explicit seeded preemption plan (random / PCT-style / biased to in-flight-state sites); solo-vs-interleaved result equality, shared-state fingerprints at every context switch, step budgets; complemented by the same scenarios under the Go race detector with real parallelism (labelled runtime monitoring)",
-   text="Stage A decides every interleaving itself: exactly one task goroutine runs at a time and the baton moves at yield points inside library calls according to the scenario's explicit plan, so a failing schedule replays exactly and is minimised (fewer preemptions, fewer tasks, fewer steps). Oracles: each task's every result equals its solo run bitwise (RNG-derived values by shape), the reflected state of every shared tensor / layer / activation / loss is unchanged at every switch and at the end, no panic, bounded steps. Stage B re-runs the same scenarios on an uninstrumented -race build with real parallelism to catch writes that never change a value. Sampling over programs and schedules.",
+   text="Stage A decides every interleaving itself: exactly one task goroutine runs at a time and the baton moves at yield points (a yield before EVERY statement of the scratch copy, mutexes bracketed so that no task is parked inside a critical section) according to the scenario's explicit plan (random switching, PCT-style change points, class-restricted switch storms started inside a back-propagation or a random constructor; on small scenarios every single-preemption schedule is enumerated), so a failing schedule replays exactly and is minimised. Oracles: each task's every result equals its solo run bitwise (RNG-derived values by shape, support and independence of the underlying variates), the reflected state of every shared tensor / layer / activation / loss / initializer is unchanged at every switch and at the end, no panic, bounded steps. Stage B re-runs the same scenarios (more often with large shared tensors) on an uninstrumented -race build with real parallelism. Sampling over programs and schedules, exhaustive over single preemptions on the enumerated scenarios.",
    note="Trusted: the scheduler (one runnable goroutine at a time), reflect-based fingerprints. Yield points exist only in qeep's own code. Stage B's interleavings are uncontrolled."),
  "C18": dict(level="exploration", ref="§4 C18",
    technique="deterministic simulation of the library's only nondeterministic input: the global RNG is pinned through its seed seam (one run seed = one replayable sample); seeded search over seeds x configurations x call orders with deterministic per-call checks and 7-sigma statistical checks per pooled sample",
@@ -30,11 +30,11 @@ CLAIMED = {
    note="Trusted: the reference state machine (60 lines), reflect-based fingerprints. Situations the statement leaves open (mixing tracked operands with gradient tensors / comparisons of spent tensors) are not generated."),
  "C01": dict(level="exploration", ref="§4 C01",
    technique="deterministic simulation: seeded DAG-building clients over shared leaves under a call-granularity scheduler; tree-unfolding twin run, exact finite differences on linear programs, additivity/order twins, bounded liveness in simulated steps (yield count) per back-propagation",
-   text="Seeded search over operation DAGs (diamond chains, ladders, fan-outs, random reuse; 1-4 graphs sharing leaves; scheduler-chosen construction interleaving and back-propagation order). Each run compares the real back-propagation with a twin in which every shared sub-expression is recomputed per consumer (so no accumulation happens inside the library), with exact finite differences for linear programs, with per-graph solo runs and the reversed order, and bounds the work of each back-propagation in simulated steps. Sampling, not proof.",
+   text="Seeded search over operation DAGs (diamond chains, ladders, fan-outs, random reuse; 1-4 graphs sharing leaves; scheduler-chosen construction interleaving and back-propagation order). Each run compares the real back-propagation with (a) a twin in which every shared sub-expression is recomputed per consumer, (b) cone-split twins (every use of one reconvergent node recomputes its cone) that work at any depth, (c) exact finite differences for linear programs, (d) a narrow directional central-difference anchor for small smooth programs without broadcast expansion, (e) per-graph runs with shared leaves split per edge and the reversed order, and bounds the work of each back-propagation in simulated steps and in backward-rule applications. Sampling, not proof.",
    note="Trusted: every single-consumer backward rule (C02/C07 are not applicable to this technique), float addition in the harness, the yield-count clock of the instrumented copy. Operands are kept away from non-differentiable points."),
  "C19": dict(level="fault_enumeration", ref="§4 C19",
    technique="deterministic simulation: seeded call histories on 1-3 metric instances with injected invalid calls (enumerated over every position in thorough), two-integer reference model checked after every call, re-partition twin",
-   text="Seeded search over Accumulate/Result histories with invalid-call faults; every generated history is compared call by call against a two-integer model, rejected calls must leave the metric's reflected state unchanged, and the same data re-delivered under another partition must give the identical result. Thorough enumerates every fault kind at every position of each history. Sampling over histories, exhaustive over fault placement within a history.",
+   text="Seeded search over Accumulate/Result histories (batch sizes up to 300, labels incl. -0, huge values, NaN, +-Inf, re-submission of the same tensor objects) with invalid-call faults; every history is compared call by call against a two-integer model, rejected calls must leave the metric's reflected state unchanged, and the same data re-delivered under another partition — also stacked with Concat, cut with Slice, or decoded from a one-hot tensor with Dot — must give the identical result. Thorough enumerates every fault kind at every position of each history. Sampling over histories, exhaustive over fault placement within a history.",
    note="Trusted: the harness model (two counters), reflect-based state fingerprint. Labels are identical or far apart; NaN/Inf labels not generated."),
 }
 
